@@ -9,7 +9,7 @@
 using namespace asl;
 using vf::fmt;
 
-static int W_TYPECHANGE, W_SAMETYPE_FAST, W_OWN_DESC, W_AUTOVIV, W_AUTORESIZE, W_SHARED_MUT, W_CLONE, W_STR_INLINE_HEAP, W_EXTEND, W_EQ_TRUE, W_EQ_FALSE, W_SCALAR_OVER_SHARED;
+static int W_STR_HEAP_SHORT, W_TYPECHANGE, W_SAMETYPE_FAST, W_OWN_DESC, W_AUTOVIV, W_AUTORESIZE, W_SHARED_MUT, W_CLONE, W_STR_INLINE_HEAP, W_EXTEND, W_EQ_TRUE, W_EQ_FALSE, W_SCALAR_OVER_SHARED;
 
 // ---------------------------------------------------------------- model
 struct MV;
@@ -123,7 +123,7 @@ struct VarSys {
 			add(OWN_ELEM, i, 0, 0); add(OWN_ELEM, i, 0, 1); add(OWN_PROP, i); add(OWN_DEEP, i);
 			add(SET_ELEM_SCALAR, i, 0, 0); add(SET_ELEM_SCALAR, i, 0, 1); add(SET_PROP_SCALAR, i, 0, 0); add(SET_PROP_SCALAR, i, 0, 1);
 			add(APPEND_SCALAR, i); add(REMOVEAT, i); add(REMOVE, i); add(CLEAR, i);
-			add(TYPED, i, 0, 0); add(TYPED, i, 0, 1); add(TYPED, i, 0, 2); add(TYPED, i, 0, 3); add(SELF, i);
+			add(TYPED, i, 0, 0); add(TYPED, i, 0, 1); add(TYPED, i, 0, 2); add(TYPED, i, 0, 3); add(TYPED, i, 0, 4); add(TYPED, i, 0, 5); add(SELF, i);
 		}
 	}
 	void add(Kind k, int i, int j = 0, int a = 0) { O o = { k, i, j, a }; ops.push_back(o); }
@@ -205,7 +205,7 @@ struct VarSys {
 		case APPEND: return fmt("v%d << v%d", o.i, o.j); case APPEND_SCALAR: return fmt("v%d << 3", o.i);
 		case REMOVEAT: return fmt("v%d.removeAt(0)", o.i); case REMOVE: return fmt("v%d.remove(\"a\")", o.i); case CLEAR: return fmt("v%d.clear()", o.i);
 		case EXTEND: return fmt("v%d.extend(v%d)", o.i, o.j); case CLONE: return fmt("v%d = v%d.clone()", o.i, o.j);
-		case TYPED: return fmt("v%d = %s", o.i, o.a == 0 ? "5 (int)" : o.a == 1 ? "\"t\" (const char*)" : o.a == 2 ? "String(\"a-long-string\")" : "0.25 (double)");
+		case TYPED: return fmt("v%d = %s", o.i, o.a == 0 ? "5 (int)" : o.a == 1 ? "\"t\" (const char*)" : o.a == 2 ? "String(\"a-long-string\")" : o.a == 3 ? "0.25 (double)" : o.a == 4 ? "\"1234567\" (const char*)" : "String(\"12345678\")");
 		case SELF: return fmt("v%d = v%d", o.i, o.i);
 		}
 		return "?";
@@ -244,7 +244,8 @@ struct VarSys {
 		case CLONE: vf::add(W_CLONE); x = v[o.j]->clone(); mx = deepclone(m[o.j]); break;
 		case TYPED:
 			if (sharedC) vf::add(W_SCALAR_OVER_SHARED);
-			if (o.a == 0) { x = 5; mx = MV::integer(5); } else if (o.a == 1) { x = "t"; mx = MV::str("t"); } else if (o.a == 2) { x = String("a-long-string"); mx = MV::str("a-long-string"); } else { x = 0.25; mx = MV::num(0.25); }
+			if (o.a == 0) { x = 5; mx = MV::integer(5); } else if (o.a == 1) { x = "t"; mx = MV::str("t"); } else if (o.a == 2) { x = String("a-long-string"); mx = MV::str("a-long-string"); } else if (o.a == 3) { x = 0.25; mx = MV::num(0.25); }
+			else if (o.a == 4) { x = "1234567"; mx = MV::str("1234567"); if (x._type == Var::STRING) vf::add(W_STR_HEAP_SHORT); } else { x = String("12345678"); mx = MV::str("12345678"); }
 			break;
 		case SELF: { Var& r = x; x = r; break; }
 		}
@@ -294,7 +295,7 @@ struct VarSys {
 int main(int argc, char** argv) {
 	vf::init(argc, argv, "C04", "c04_var");
 	int cS = vf::counter("states"), cT = vf::counter("transitions"), cTr = vf::counter("traces");
-	W_TYPECHANGE = vf::counter("w.assign_type_changing_path"); W_SAMETYPE_FAST = vf::counter("w.assign_same_type_fast_path"); W_OWN_DESC = vf::counter("w.assign_own_descendant");
+	W_STR_HEAP_SHORT = vf::counter("w.heap_represented_string_shorter_than_8"); W_TYPECHANGE = vf::counter("w.assign_type_changing_path"); W_SAMETYPE_FAST = vf::counter("w.assign_same_type_fast_path"); W_OWN_DESC = vf::counter("w.assign_own_descendant");
 	W_AUTOVIV = vf::counter("w.auto_vivification"); W_AUTORESIZE = vf::counter("w.index_auto_resize"); W_SHARED_MUT = vf::counter("w.mutation_of_shared_container"); W_CLONE = vf::counter("w.clone");
 	W_STR_INLINE_HEAP = vf::counter("w.strings_at_7_8_byte_boundary"); W_EXTEND = vf::counter("w.extend"); W_EQ_TRUE = vf::counter("w.equal_pairs_compared"); W_EQ_FALSE = vf::counter("w.unequal_pairs_compared"); W_SCALAR_OVER_SHARED = vf::counter("w.scalar_assigned_over_shared_container");
 	VarSys sys;
